@@ -15,25 +15,27 @@
 (***************************************************************************)
 EXTENDS Integers, Sequences, FiniteSets, TLC
 
-CONSTANTS Nodes,        \* node names (= certificate names)
+CONSTANTS ReloadNodes,  \* closed world only: the nodes whose relay.am_relay the environment reconfigures
+          Nodes,        \* node names (= certificate names)
           AddrOf,       \* [Nodes -> overlay address name]
-          AmRelay       \* [Nodes -> BOOLEAN] relay.am_relay
+          AmRelay       \* [Nodes -> BOOLEAN] relay.am_relay as first configured (a reload may change it: am)
 
 States == {"requested", "established", "peerrequested", "disestablished"}
 Rec == [peer : Nodes, tun : Nat, addr : STRING, type : {"terminal", "forwarding"}, state : States, lidx : Nat, ridx : Nat]
 
 VARIABLES recs,      \* recs[n] : set of relay records of node n
           tuns,      \* tuns[n] : set of peers n has a tunnel with
-          ridx       \* ridx[n] : the node's table of relay indexes (HostMap.Relays): set of <<index, tunnel it leads to>>
+          ridx,      \* ridx[n] : the node's table of relay indexes (HostMap.Relays): set of <<index, tunnel it leads to>>
+          am         \* am[n]   : relay.am_relay as currently configured: "on", "off", or "was" (off now, on earlier)
 
-vars == <<recs, tuns, ridx>>
+vars == <<recs, tuns, ridx, am>>
 
 Key(r) == <<r.peer, r.addr, r.tun>>
 Keys(S) == {Key(r) : r \in S}
 ByKey(S, k) == CHOOSE r \in S : Key(r) = k
 OwnerOf(a) == CHOOSE n \in Nodes : AddrOf[n] = a
 
-Init == recs = [n \in Nodes |-> {}] /\ tuns = [n \in Nodes |-> {}] /\ ridx = [n \in Nodes |-> {}]
+Init == recs = [n \in Nodes |-> {}] /\ tuns = [n \in Nodes |-> {}] /\ ridx = [n \in Nodes |-> {}] /\ am = [n \in Nodes |-> IF AmRelay[n] THEN "on" ELSE "off"]
 
 \* relay indexes disappear with the tunnel that owns them: every index the node would still accept relayed packets on
 \* belongs to a relay record of a tunnel the node holds (tun = 0 names a tunnel that is gone)
@@ -60,7 +62,7 @@ ChangeOK(n, s, old, new, k) ==
     /\ Concerns(k, s)
     /\ IF k \in Keys(old) /\ k \in Keys(new) THEN ValidTransition(ByKey(old, k), ByKey(new, k))
        ELSE IF k \in Keys(new) THEN /\ k[1] \in tuns[n]                     \* created on a live tunnel
-                                     /\ (ByKey(new, k).type = "forwarding" => AmRelay[n])
+                                     /\ (ByKey(new, k).type = "forwarding" => am[n] = "on")
                                      /\ k[2] # AddrOf[n]                       \* never a relay to itself
        ELSE FALSE                                                            \* records disappear only with their tunnel
 
@@ -68,7 +70,7 @@ UniqueIdx(S) == \A a, b \in S : (a # b) => a.lidx # b.lidx
 
 \* n forwards a relayed packet that arrived on its tunnel with s onto its tunnel with k
 MayForward(n, s, k, S) ==
-    /\ AmRelay[n] /\ k # s /\ k # n
+    /\ am[n] = "on" /\ k # s /\ k # n                \* configured as a relay NOW: a reload that turns am_relay off ends forwarding
     /\ \E r \in S : r.peer = k /\ r.addr = AddrOf[s] /\ r.type = "forwarding" /\ r.state = "established"   \* onward leg
     /\ \E r \in S : r.peer = s /\ r.addr = AddrOf[k] /\ r.type = "forwarding"                                  \* negotiated by s
 
@@ -91,6 +93,12 @@ Recv(n, s, typ, new, fwd, newtuns, ri) ==
           /\ IF typ = "relay" THEN tuns[n] \subseteq newtuns ELSE newtuns = tuns[n]
     /\ recs' = [recs EXCEPT ![n] = new]
     /\ tuns' = [tuns EXCEPT ![n] = newtuns]
+    /\ UNCHANGED am
+
+\* configuration reload: relay.am_relay changes; records and tunnels stay as they are (forwarding records made while the
+\* node was a relay may linger, they just are not used: MayForward asks for am[n])
+Reload(n, v) == /\ am' = [am EXCEPT ![n] = IF v THEN "on" ELSE IF @ = "off" THEN "off" ELSE "was"]
+                /\ UNCHANGED <<recs, tuns, ridx>>
 
 \* something not authenticated by a tunnel (handshake, recv_error, garbage) or a local inside packet: relay records may
 \* only be created by the node itself starting relays (state requested, terminal) and nothing is forwarded
@@ -112,6 +120,7 @@ Local(n, new, newtuns, ri, Alive(_)) ==
           /\ UniqueIdx(new)
     /\ recs' = [recs EXCEPT ![n] = new]
     /\ tuns' = [tuns EXCEPT ![n] = newtuns]
+    /\ UNCHANGED am
 
 \* MC: a small closed world: the environment proposes any single-record change or tunnel change and the
 \* permission rules decide; the invariants below must hold in everything they let through
@@ -128,11 +137,14 @@ Next == \E n \in Nodes :
                                  THEN [r EXCEPT !.state = "disestablished"] ELSE r : r \in kept}
                  IN Local(n, after, newtuns, IdxOf(after), LAMBDA r : r.peer \in newtuns)
            \/ \E r \in RecSmall : Local(n, recs[n] \cup {r}, tuns[n], IdxOf(recs[n] \cup {r}), LAMBDA x : x.peer \in tuns[n])
+           \/ (n \in ReloadNodes /\ \E v \in BOOLEAN : Reload(n, v))
 Spec == Init /\ [][Next]_vars
 
 -----------------------------------------------------------------------------
 (* C39 as state invariants of any behaviour the permission specification accepts *)
-OnlyRelaysForward == \A n \in Nodes : \A r \in recs[n] : r.type = "forwarding" => AmRelay[n]
+\* a forwarding record exists only on a node that is or was configured as a relay;
+\* that forwarding itself needs am[n] at the moment of forwarding is the guard of MayForward
+OnlyRelaysForward == \A n \in Nodes : \A r \in recs[n] : r.type = "forwarding" => am[n] # "off"
 RecordsOnLiveTunnels == \A n \in Nodes : \A r \in recs[n] : r.peer \in tuns[n]
 NotToSelf == \A n \in Nodes : \A r \in recs[n] : r.addr # AddrOf[n]
 IndexesUnique == \A n \in Nodes : UniqueIdx(recs[n])
